@@ -88,11 +88,12 @@ Example C04_update_example :
 Proof. split; [exact ex_ups_not_dropped|exact ex_ups_succeeds]. Qed.
 
 (* theorem and run-time check coincide: the predicate holds_C04 of Run/RunAdapt.v, evaluated on a case whose
-   recorded views are the model's, is true for creation (under W4), update and stop requests alike *)
+   recorded views are the model's, is true for creation, update and stop requests alike — for ALL inputs: the
+   predicate carries the theorems' guards itself (W4 per position for creation, "nothing dropped before" per
+   position for updates) *)
 Theorem C04_holds_on_model :
   forall case : adapt_case,
     ac_views case = fst (run_request (ac_req case) (ac_resps case)) ->
-    (forall c0, ac_req case = RCreate c0 -> wf_views (ac_resps case) = true) ->
     holds_C04 case = true.
 Proof. exact holds_C04_on_model. Qed.
 Print Assumptions C04_holds_on_model.
